@@ -6,7 +6,7 @@ back-ends.  Special characters are spelled with chr() only.
 Portable subset (where the two scanners are known to differ by design, nothing is generated): no tabs
 as separators, no BOM inside the stream, tag characters [A-Za-z0-9/_.:-], only %YAML and %TAG
 directives, no '?' inside flow plain scalars, a comment after a block scalar header is preceded by a
-space, no own-line comment directly after a block scalar, LS/PS never used as structural breaks.
+space, no own-line comment directly after a block scalar, LS/PS used as structural breaks only to end a comment.
 """
 NEL, LS, PS = chr(0x85), chr(0x2028), chr(0x2029)
 
@@ -266,6 +266,13 @@ class Render:
         self.comments = comments
         self.tail_bs = False         # the text written last is a block scalar (no own-line comment may follow)
 
+    def cbr(self, after_comment):
+        """The break that ends a line.  A comment may also be ended by LS or PS (a line break for both scanners; outside
+        scalars no folding rule depends on which break it is)."""
+        if after_comment and self.r.random() < 0.3:
+            return self.r.choice([LS, PS])
+        return self.br
+
     def stream(self, docs):
         """Returns (text, expected event tuples).  self.doc_ends: offset just after each document's text."""
         out = []
@@ -500,11 +507,12 @@ class Render:
             if n.style == 'plain' and body == '':
                 return (prefix + ((' ' + p) if p else '')) + br if prefix else (p + br)
             cm = ' # cm' if (self.comments and r.random() < 0.1) else ''
-            return lead + ((p + ' ') if p else '') + body + cm + br
+            return lead + ((p + ' ') if p else '') + body + cm + self.cbr(cm)
         empty = not (n.items if isinstance(n, Q) else n.pairs)
         if n.flow or empty:
             self.tail_bs = False
-            return lead + self.flow(n, indent) + (' # cm' if (self.comments and r.random() < 0.1) else '') + br
+            cm = ' # cm' if (self.comments and r.random() < 0.1) else ''
+            return lead + self.flow(n, indent) + cm + self.cbr(cm)
         out = []
         if prefix or p:
             out.append((prefix + ((' ' + p) if p else '')) + br if prefix else p + br)
@@ -518,7 +526,7 @@ class Render:
                 ind = indent          # indentless sequence as a mapping value
             for it in n.items:
                 if self.comments and not self.tail_bs and r.random() < 0.05:
-                    out.append(' ' * r.randint(0, 6) + '# own-line comment' + br)
+                    out.append(' ' * r.randint(0, 6) + '# own-line comment' + self.cbr(True))
                 out.append(self.block(it, ind, ' ' * ind + '-'))
                 out.append(self.gap())
         else:
